@@ -528,7 +528,7 @@ impl<'a> Parser<'a> {
 
             // TypeScript parameter properties: public/private/protected/readonly
             let accessibility = self.parse_accessibility();
-            let readonly = self.match_token(&TokenKind::Readonly);
+            let readonly = self.match_modifier(&TokenKind::Readonly);
 
             // Check for rest parameter
             let pattern = if self.match_token(&TokenKind::DotDotDot) {
@@ -700,7 +700,7 @@ impl<'a> Parser<'a> {
         // Parse decorators first
         let decorators = self.parse_decorators()?;
 
-        let static_ = self.match_token(&TokenKind::Static);
+        let static_ = self.match_modifier(&TokenKind::Static);
 
         // Check for static initialization block: static { ... }
         if static_ && self.check(&TokenKind::LBrace) {
@@ -709,14 +709,14 @@ impl<'a> Parser<'a> {
         }
 
         // Parse abstract modifier (TypeScript)
-        let is_abstract = self.match_token(&TokenKind::Abstract);
+        let is_abstract = self.match_modifier(&TokenKind::Abstract);
 
         let accessibility = self.parse_accessibility();
-        let readonly = self.match_token(&TokenKind::Readonly);
-        let accessor = self.match_token(&TokenKind::Accessor);
+        let readonly = self.match_modifier(&TokenKind::Readonly);
+        let accessor = self.match_modifier(&TokenKind::Accessor);
 
         // Check for async method
-        let is_async = self.match_token(&TokenKind::Async);
+        let is_async = self.match_modifier(&TokenKind::Async);
 
         // Check for generator method (either *method() or async *method())
         let is_generator = self.match_token(&TokenKind::Star);
@@ -736,10 +736,10 @@ impl<'a> Parser<'a> {
         }
 
         // Check for getter/setter
-        let method_kind = if self.check_keyword("get") {
+        let method_kind = if self.check_keyword("get") && self.peek_is_modified_name() {
             self.advance();
             MethodKind::Get
-        } else if self.check_keyword("set") {
+        } else if self.check_keyword("set") && self.peek_is_modified_name() {
             self.advance();
             MethodKind::Set
         } else {
@@ -824,21 +824,52 @@ impl<'a> Parser<'a> {
     }
 
     fn parse_accessibility(&mut self) -> Option<Accessibility> {
-        match &self.current.kind {
-            TokenKind::Public => {
-                self.advance();
-                Some(Accessibility::Public)
-            }
-            TokenKind::Private => {
-                self.advance();
-                Some(Accessibility::Private)
-            }
-            TokenKind::Protected => {
-                self.advance();
-                Some(Accessibility::Protected)
-            }
-            _ => None,
+        let accessibility = match &self.current.kind {
+            TokenKind::Public => Accessibility::Public,
+            TokenKind::Private => Accessibility::Private,
+            TokenKind::Protected => Accessibility::Protected,
+            _ => return None,
+        };
+        // `public() {}` / `private = 1` / `(protected: boolean)`: the word is the name itself
+        if !self.peek_is_modified_name() {
+            return None;
         }
+        self.advance();
+        Some(accessibility)
+    }
+
+    /// Consume a modifier word (`static`, `abstract`, `readonly`, `accessor`, `async`, ...) only
+    /// when it modifies something: followed by `(`, `=`, `;`, `:` ... the word is itself the name
+    /// of the member or parameter (`class Cache { get(k) {} static() {} readonly = 1 }`).
+    fn match_modifier(&mut self, kind: &TokenKind) -> bool {
+        if self.check(kind) && self.peek_is_modified_name() {
+            self.advance();
+            true
+        } else {
+            false
+        }
+    }
+
+    /// True if the token after the current one can start (or continue towards) the name that the
+    /// current modifier word would modify; false if it shows the current word to be the name.
+    fn peek_is_modified_name(&mut self) -> bool {
+        let checkpoint = self.lexer.checkpoint();
+        let next = self.lexer.next_token();
+        self.lexer.restore(checkpoint);
+        !matches!(
+            next.kind,
+            TokenKind::LParen
+                | TokenKind::Lt
+                | TokenKind::Eq
+                | TokenKind::Semicolon
+                | TokenKind::Colon
+                | TokenKind::Question
+                | TokenKind::Bang
+                | TokenKind::Comma
+                | TokenKind::RParen
+                | TokenKind::RBrace
+                | TokenKind::Eof
+        )
     }
 
     fn parse_class_element_name(&mut self) -> Result<(ObjectPropertyKey, bool), JsError> {
@@ -1590,7 +1621,8 @@ impl<'a> Parser<'a> {
                     | TokenKind::Static
                     | TokenKind::Readonly
                     | TokenKind::Abstract
-            ) {
+            ) && self.peek_is_modified_name()
+            {
                 self.advance();
             }
 
@@ -4305,7 +4337,7 @@ impl<'a> Parser<'a> {
 
         while !self.check(&TokenKind::RBrace) && !self.is_at_end() {
             let start = self.current.span;
-            let readonly = self.match_token(&TokenKind::Readonly);
+            let readonly = self.match_modifier(&TokenKind::Readonly);
 
             // Check for index signature: [key: type]: valueType
             if self.check(&TokenKind::LBracket) {
